@@ -277,6 +277,13 @@ impl ReceiveChannelReliable {
     }
 }
 
+/// What is reserved for a sliced message until it is complete: the least its length can be (its last
+/// slice may hold a single byte). The sender accounts the exact length, reserving whole slices here
+/// made the receiver refuse messages that the same budget accepted on the sending side.
+fn min_sliced_message_len(num_slices: usize) -> usize {
+    num_slices.saturating_sub(1) * SLICE_SIZE + 1
+}
+
 impl ReceiveChannelReliable {
     pub fn new(max_memory_usage_bytes: usize, ordered: bool) -> Self {
         let reliable_order = match ordered {
@@ -350,7 +357,7 @@ impl ReceiveChannelReliable {
         }
 
         if !self.slices.contains_key(&slice.message_id) {
-            let message_len = slice.num_slices * SLICE_SIZE;
+            let message_len = min_sliced_message_len(slice.num_slices);
             if self.memory_usage_bytes + message_len > self.max_memory_usage_bytes {
                 return Err(ChannelError::ReliableChannelMaxMemoryReached);
             }
@@ -367,7 +374,7 @@ impl ReceiveChannelReliable {
         let num_slices = slice_constructor.num_slices;
         if let Some(message) = slice_constructor.process_slice(slice.slice_index, &slice.payload)? {
             // Memory usage is re-added with the exactly message size
-            self.memory_usage_bytes -= num_slices * SLICE_SIZE;
+            self.memory_usage_bytes -= min_sliced_message_len(num_slices);
             self.process_message(message, slice.message_id)?;
             self.slices.remove(&slice.message_id);
         }
